@@ -293,6 +293,8 @@ def draw_op(rng, name, f, kind, curves, azimuths, fault_rate=0.0):
         return {"op": name, "n": rng.choice([0.5, 1.0, 1.5, 2.0, 2, 2.5, 3.0, 3, 1]),
                 "max_iterations": rng.choice([1, 1, 2, 3, 5, 50, 50]),
                 "dfn": rng.choice(DISTS), "dmc": rng.choice(DISTS),
+                # the spelling 'log-normal' is accepted wherever 'lognormal' is (hvsrpy.constants.DISTRIBUTION_MAP)
+                "spell_fn": rng.random() < 0.12, "spell_mc": rng.random() < 0.12,
                 "range": draw_range(rng, f) if rng.random() < 0.6 else [None, None],
                 "rnum": rng.choice(["float", "float", "np", "int"]),
                 "rtype": rng.choice(["tuple", "tuple", "list"]), "kwargs": draw_kwargs(rng)}
@@ -558,7 +560,8 @@ def call_fdwra(obj, op):
             with np.errstate(all="ignore"):
                 ret = H.frequency_domain_window_rejection(
                     obj, n=op["n"], max_iterations=op["max_iterations"],
-                    distribution_fn=op["dfn"], distribution_mc=op["dmc"],
+                    distribution_fn="log-normal" if op.get("spell_fn") and op["dfn"] == "lognormal" else op["dfn"],
+                    distribution_mc="log-normal" if op.get("spell_mc") and op["dmc"] == "lognormal" else op["dmc"],
                     search_range_in_hz=rng_arg,
                     find_peaks_kwargs=copy.deepcopy(op["kwargs"]))
         return ret, None, h.iters
